@@ -1324,8 +1324,8 @@ def find_field_split(inner):
 
 
 # ------------------------------------------------------------------------------------------ VC drivers
-def find_fn(fns, pattern):
-    hits = [f for n, f in fns.items() if re.search(pattern, n)]
+def find_fn(fns, pattern, sig=None):
+    hits = [f for n, f in fns.items() if re.search(pattern, n) and (sig is None or re.search(sig, f.sig))]
     if len(hits) != 1:
         raise KeyError("function pattern %r matches %d MIR functions %s" % (pattern, len(hits), [h.name for h in hits][:5]))
     return hits[0]
